@@ -60,6 +60,47 @@ def declared_size(text):
     return max(ns) if ns else 0
 
 
+def split_items(text):
+    """top-level items of a program text (split at bracket depth 0 in front of fn / type / mod); comments are not special-cased,
+    a wrong split only yields one more malformed text"""
+    cuts, depth = [], 0
+    for m in re.finditer(r"[{}()\[\]]|\b(?:fn|type|mod)\b", text):
+        t = m.group(0)
+        if t in "{([":
+            depth += 1
+        elif t in "})]":
+            depth -= 1
+        elif depth == 0:
+            cuts.append(m.start())
+    if not cuts:
+        return [text]
+    return [text[:cuts[0]]] + [text[a:b] for a, b in zip(cuts, cuts[1:] + [len(text)])]
+
+
+def mutate_items(rng, text):
+    """item-level changes: an item twice (two `main`s, a function / alias defined twice), items reordered (main first, use before
+    definition), an item dropped, an item renamed to main / main renamed"""
+    items = split_items(text)
+    head, items = items[0], items[1:]
+    if not items:
+        return text + text
+    c = rng.randrange(6)
+    i = rng.randrange(len(items))
+    if c == 0:
+        items.insert(rng.randrange(len(items) + 1), items[i])
+    elif c == 1:
+        rng.shuffle(items)
+    elif c == 2:
+        del items[i]
+    elif c == 3:
+        items[i] = re.sub(r"\bfn\s+\w+", "fn main", items[i], count=1)
+    elif c == 4:
+        items = [re.sub(r"\bfn\s+main\b", "fn main2", it) for it in items]
+    else:
+        items = items + items
+    return head + "".join(items)
+
+
 def run(chk, replay=None):
     build_harness()
     corelib.tables()
@@ -104,6 +145,10 @@ def run(chk, replay=None):
             m = mutate(rng, t)
             if nesting_ok(m):
                 lines.append("(entry program %s)" % quote(m))
+        for _ in range(6 if quick else 30):
+            m = mutate_items(rng, t)
+            chk.count("item-mutations")
+            lines.append("(entry program %s)" % quote(m))
     for t in modules:
         for kind in ("witmod", "argmod"):
             lines.append("(entry %s %s)" % (kind, quote(t)))
